@@ -108,7 +108,7 @@ class ReturnSignal(Exception):
 
 
 OS_CONSTS = {"os.O_RDONLY": 0, "os.O_WRONLY": 1, "os.O_RDWR": 2, "os.O_APPEND": 1024,
-             "os.O_CREAT": 64, "os.O_TRUNC": 512, "os.F_OK": 0}
+             "os.O_CREAT": 64, "os.O_TRUNC": 512, "os.F_OK": 0, "os.O_ACCMODE": 3}
 
 PURE_BUILTINS = {"int", "float", "len", "round", "min", "max", "sum", "abs", "sorted",
                  "set", "list", "tuple", "str", "bool", "dict", "zip", "enumerate",
